@@ -419,6 +419,12 @@ def restart_setups(chk, drv, g):
                     continue
                 V = valid_set(m1, m2, size)
                 case = {'npts': npts, 'mpi_size': size, 'path': 'setupFromFile'}
+                if HANGS[0] > MAX_HANGS:
+                    break
+                pre = guarded(g, (list(npts), size), budget=10.0)       # watchdog outside the rank threads
+                if pre[0] in ('hang', 'bad'):
+                    oracle(chk, 'compute_2d_process_grid', case, pre, V)
+                    continue
 
                 # several simulations side by side: the world is split into `groups` communicators of `size` processes, each restarts on its own
                 groups = 2 if (size <= 5 and rng.random() < 0.5) else 1
